@@ -25,7 +25,7 @@ NSHARDS = {"quick": 16, "thorough": 16}
 THRESHOLDS = {"quick": {
     "c03:datasets": 300, "c03:items": 2500, "c03:parallel-runs": 20, "c03:distinct-schedules": 10, "c03:opt:allowed_start": 100,
     "c03:opt:allowed_end": 100, "c03:opt:deadend_start:nontrivial": 100, "c03:opt:deadend_end:nontrivial": 100,
-    "c03:opt:endpoints_not_equal": 100, "c03:opt:none": 500, "c03:equal-endpoints-allowed-and-seen": 5, "c03:empty-dataset": 5,
+    "c03:opt:endpoints_not_equal": 100, "c03:opt:deadend+allowed-same-endpoint:nontrivial": 30, "c03:opt:none": 500, "c03:equal-endpoints-allowed-and-seen": 5, "c03:empty-dataset": 5,
     "c03:from_config": 30, "c03:worker-pids": 30, "hits:_generate_maze_helper": 1000,
 }}
 THRESHOLDS["thorough"] = {**THRESHOLDS["quick"], "c03:datasets": 4000, "c03:parallel-runs": 300, "c03:distinct-schedules": 100}
@@ -60,28 +60,25 @@ def endpoint_options(g: int, rng):
         idx = rng.choice(len(cells), size=min(k, len(cells)), replace=False)
         return [cells[int(i)] for i in idx]
 
-    kind = int(rng.integers(12))
-    if kind <= 2:
+    if rng.random() < 0.25:
         return {}
-    if kind == 3:
-        return dict(allowed_start=pick(1))
-    if kind == 4:
-        return dict(allowed_end=pick(2))
-    if kind == 5:
-        return dict(allowed_start=pick(int(rng.integers(2, 6))), allowed_end=pick(int(rng.integers(2, 6))))
-    if kind == 6:
-        return dict(deadend_start=True)
-    if kind == 7:
-        return dict(deadend_end=True)
-    if kind == 8:
-        return dict(deadend_start=True, deadend_end=True, endpoints_not_equal=bool(rng.random() < 0.5))
-    if kind == 9:
-        return dict(endpoints_not_equal=True)
-    if kind == 10:
-        two = pick(2)  # equal endpoints are likely here when wrongly permitted
-        return dict(allowed_start=two, allowed_end=list(two), endpoints_not_equal=True)
+    # every option independently, so that all combinations occur (incl. allowed_X together with deadend_X on the same endpoint,
+    # and two-element allowed sets with endpoints_not_equal, where equal endpoints are likely when wrongly permitted)
+    o = {}
     two = pick(2)
-    return dict(allowed_start=two, allowed_end=list(two))
+    if rng.random() < 0.4:
+        o["allowed_start"] = [pick(1), two, pick(int(rng.integers(3, 8))), cells][int(rng.integers(4))]
+    if rng.random() < 0.4:
+        o["allowed_end"] = [pick(1), list(two), pick(int(rng.integers(3, 8))), cells][int(rng.integers(4))]
+    if rng.random() < 0.35:
+        o["deadend_start"] = True
+    if rng.random() < 0.35:
+        o["deadend_end"] = True
+    if rng.random() < 0.4:
+        o["endpoints_not_equal"] = True
+    elif rng.random() < 0.1:
+        o["endpoints_not_equal"] = False
+    return o
 
 
 def check_item(ctx, item, g_n, opts, case):
@@ -126,12 +123,18 @@ def check_item(ctx, item, g_n, opts, case):
     comp = g.component_of(s)
     if o.get("deadend_start"):
         ctx.check(g.degree(s) == 1, "C03/deadend_start-violated", f"s={s} degree {g.degree(s)}", case)
-        if any(g.degree(c) != 1 for c in comp):
+        pool = comp if o.get("allowed_start") is None else (comp & {tuple(x) for x in o["allowed_start"]})
+        if any(g.degree(c) != 1 for c in pool):
             ctx.tally("c03:opt:deadend_start:nontrivial")
+            if o.get("allowed_start") is not None:
+                ctx.tally("c03:opt:deadend+allowed-same-endpoint:nontrivial")
     if o.get("deadend_end"):
         ctx.check(g.degree(e) == 1, "C03/deadend_end-violated", f"e={e} degree {g.degree(e)}", case)
-        if any(g.degree(c) != 1 for c in comp):
+        pool = comp if o.get("allowed_end") is None else (comp & {tuple(x) for x in o["allowed_end"]})
+        if any(g.degree(c) != 1 for c in pool):
             ctx.tally("c03:opt:deadend_end:nontrivial")
+            if o.get("allowed_end") is not None:
+                ctx.tally("c03:opt:deadend+allowed-same-endpoint:nontrivial")
     ctx.tally("c03:items")
     if len(path) >= 2:
         ctx.nontrivial(case.get("cfg_key"), case.get("index"), cl, sol)
